@@ -88,3 +88,58 @@ func H_C16_mask() {
 		vxrt.Assert(vxrt.Eq(dumpDir(dir), stored), "C16:failing-call-writes-nothing")
 	}
 }
+
+// maskLine is a matcher (JSON and YAML interface) that replaces the second
+// line of a two-line document by a fixed placeholder: the matcher interface is
+// the environment boundary, so masking is "some function of the bytes".
+type maskLine struct{}
+
+func (maskLine) apply(b []byte) []byte {
+	s := string(b)
+	for i := 0; i < len(s); i++ {
+		if s[i] == '\n' {
+			return []byte(s[:i] + "\nm: masked")
+		}
+	}
+	return b
+}
+func (m maskLine) JSON(b []byte) ([]byte, []match.MatcherError) { return m.apply(b), nil }
+func (m maskLine) YAML(b []byte) ([]byte, []match.MatcherError) { return m.apply(b), nil }
+
+// H_C16_update: masking also holds across an update: create (a1,m1), update
+// with a changed unmasked value (a2,m2), then a normal run with (a2,m3) passes
+// and a run with another unmasked value fails.
+func H_C16_update() {
+	vxrt.CI(false)
+	vxrt.YAMLAssume(true)
+	vxrt.EnvFixed("NO_COLOR", "1")
+	dir := vxrt.Dir()
+	plain := WithConfig(Dir(dir), Filename("f"))
+	upd := WithConfig(Dir(dir), Filename("f"), Update(true))
+	val := func(label string) string {
+		c := vxrt.Text(label, 1)
+		vxrt.Assume(vxrt.And(c[0] >= 'a', c[0] <= 'z'))
+		return c
+	}
+	a1, a2 := val("unmasked-1"), val("unmasked-2")
+	vxrt.Assume(differs(a1, a2))
+	m1, m2, m3 := val("masked-1"), val("masked-2"), val("masked-3")
+	doc := func(a, m string) string { return "a: " + a + "\nm: " + m }
+	call := func(c *Config, t *mockT, d string) { c.MatchYAML(t, d, maskLine{}) }
+	t1 := newT("TestM")
+	call(plain, t1, doc(a1, m1))
+	t1.end()
+	vxrt.Assert(len(t1.errors) == 0 && len(t1.logs) == 1, "C16:record")
+	t2 := newT("TestM")
+	call(upd, t2, doc(a2, m2))
+	t2.end()
+	vxrt.Assert(len(t2.errors) == 0 && len(t2.logs) == 1, "C16:update")
+	t3 := newT("TestM")
+	call(plain, t3, doc(a2, m3))
+	t3.end()
+	vxrt.Assert(len(t3.errors) == 0 && len(t3.logs) == 0, "C16:masked-difference-passes-after-update")
+	t4 := newT("TestM")
+	call(plain, t4, doc(a1, m3))
+	t4.end()
+	vxrt.Assert(len(t4.errors) == 1, "C16:unmasked-difference-fails-after-update")
+}
